@@ -11,7 +11,13 @@
 //!   chain   `a0 op a1 op a2 ...` without parentheses; ORACLE: or-groups of and-groups,
 //!           both left-associated
 //!   bad     mutated / token-soup texts: real and model must agree (mostly both reject)
-//!   depth   nesting around the limit; ORACLE: deeper than the limit is rejected
+//!   depth   nesting around the limit — plain towers of `(` / `not (` / `x and (`, and towers SPLIT
+//!           across one or two complex-attribute brackets `attr[ … ]` (n levels outside, the
+//!           bracket, m levels inside, for every pair of nesting operators); ORACLE: deeper than
+//!           the documented limit is rejected, strictly shallower parses to the tree written.
+//!           With `--budget` > 1 also random mixed towers around the limit.
+//!           The depth ORACLE judges every text of every stream with its own counter
+//!           (`text_nesting`): accepted although nested deeper than the documented limit = failure.
 //!   attr    every `ATTR_*` constant of proto/src/constants.rs as attribute name
 //!
 //! What the comparison canonicalises (the model's stated abstractions): attribute names in the
@@ -467,6 +473,129 @@ fn real_parse(text: &str, complex: bool) -> String {
     }
 }
 
+// ---------- ORACLE for "rejects nesting deeper than the documented limit" ----------
+
+/// Nesting of a filter text, counted from the text alone: the largest number of brackets — `(`
+/// (a group, also the one after `not`) or `[` (a complex-attribute filter) — that are open at
+/// the same time, outside string literals. This is what the documented limit counts: the
+/// unchanged parser spends one level of its budget per `(`, `not (` and `attr[` (checked on the
+/// unchanged tree: every text with nesting <= limit-1 built below parses, every one with nesting
+/// >= limit is rejected), and chains `a and b and c` without brackets are not nesting.
+/// Only meaningful for texts the parser ACCEPTS (then every `"` outside a literal opens one).
+fn text_nesting(text: &str) -> usize {
+    let (mut depth, mut max, mut in_str, mut esc) = (0usize, 0usize, false, false);
+    for c in text.chars() {
+        if in_str {
+            if esc {
+                esc = false;
+            } else if c == '\\' {
+                esc = true;
+            } else if c == '"' {
+                in_str = false;
+            }
+            continue;
+        }
+        match c {
+            '"' => in_str = true,
+            '(' | '[' => {
+                depth += 1;
+                max = max.max(depth);
+            }
+            ')' | ']' => depth = depth.saturating_sub(1),
+            _ => {}
+        }
+    }
+    max
+}
+
+/// The limit constant as the source has it now (regenerated on every run; the ORACLE keeps
+/// using `DOCUMENTED_LIMIT`, this only decides where additional directed cases are placed).
+fn source_limit() -> Option<usize> {
+    let src = std::fs::read_to_string(format!(
+        "{}/proto/src/scim_v1/mod.rs",
+        std::env::var("VERIF_REPO").unwrap_or_else(|_| "/repo".into())
+    ))
+    .ok()?;
+    let at = src.find("const SCIM_FILTER_MAX_DEPTH")?;
+    let rest = &src[at..];
+    let eq = rest.find('=')?;
+    let end = rest.find(';')?;
+    rest[eq + 1..end].trim().replace('_', "").parse().ok()
+}
+
+/// One nesting step as the grammar counts it: each of these costs exactly one level.
+#[derive(Clone, Copy, Debug, PartialEq)]
+enum Nest {
+    Paren,
+    Not,
+    And,
+    Or,
+}
+const NESTS: [Nest; 4] = [Nest::Paren, Nest::Not, Nest::And, Nest::Or];
+
+fn nest_ft(n: Nest, text: String, t: FT) -> (String, FT) {
+    let a = || Box::new(FT::Pres("a".into(), None));
+    match n {
+        Nest::Paren => (format!("({text})"), t),
+        Nest::Not => (format!("not ({text})"), FT::Not(Box::new(t))),
+        Nest::And => (format!("a pr and ({text})"), FT::And(a(), Box::new(t))),
+        Nest::Or => (format!("a pr or ({text})"), FT::Or(a(), Box::new(t))),
+    }
+}
+
+fn nest_ct(n: Nest, text: String, t: CT) -> (String, CT) {
+    let a = || Box::new(CT::Pres("type".into()));
+    match n {
+        Nest::Paren => (format!("({text})"), t),
+        Nest::Not => (format!("not ({text})"), CT::Not(Box::new(t))),
+        Nest::And => (format!("type pr and ({text})"), CT::And(a(), Box::new(t))),
+        Nest::Or => (format!("type pr or ({text})"), CT::Or(a(), Box::new(t))),
+    }
+}
+
+/// `outer` steps (outermost first) around one or two sibling brackets `attr[…]`, each holding
+/// `inner` steps (outermost first) around `type pr`. Returns the text and the tree it denotes.
+fn split_tower(outer: &[Nest], brackets: &[(&str, Vec<Nest>)], join_and: bool) -> (String, FT) {
+    let mut parts: Vec<(String, FT)> = vec![];
+    for (attr, inner) in brackets {
+        let (mut text, mut tree) = ("type pr".to_string(), CT::Pres("type".into()));
+        for n in inner.iter().rev() {
+            (text, tree) = nest_ct(*n, text, tree);
+        }
+        parts.push((format!("{attr}[{text}]"), FT::Cx(attr.to_string(), Box::new(tree))));
+    }
+    let mut it = parts.into_iter();
+    let (mut text, mut tree) = it.next().expect("at least one bracket");
+    for (t2, f2) in it {
+        text = format!("{text} {} {t2}", if join_and { "and" } else { "or" });
+        tree = if join_and { FT::And(Box::new(tree), Box::new(f2)) } else { FT::Or(Box::new(tree), Box::new(f2)) };
+    }
+    for n in outer.iter().rev() {
+        (text, tree) = nest_ft(*n, text, tree);
+    }
+    (text, tree)
+}
+
+/// The depth-stream case for a constructed text: ORACLE from the statement — nesting deeper than
+/// the documented limit must be rejected; strictly shallower must parse to the tree written
+/// (at exactly the limit the statement leaves the answer open: counted, not judged).
+fn depth_case(text: String, tree: &FT, built_nesting: usize) -> Case {
+    let nesting = text_nesting(&text);
+    assert_eq!(nesting, built_nesting, "harness self-check: text_nesting disagrees with the construction for {text}");
+    let oracle = if nesting > DOCUMENTED_LIMIT {
+        Some(("REJECT".to_string(), "depth-reject"))
+    } else if nesting < DOCUMENTED_LIMIT {
+        Some((format!("ok {}", ft_polish(&ft_from_real(&ft_to_real(tree)))), "depth-within-limit"))
+    } else {
+        None
+    };
+    Case { stream: "depth", complex: false, text, printed_from: None, oracle, nontrivial: true }
+}
+
+fn h_lo(l: usize) -> u64 {
+    (l / 2) as u64
+}
+
 // ---------- generators ----------
 
 const KNOWN_ATTRS: [&str; 10] =
@@ -797,6 +926,17 @@ fn ask_all(drv: &mut Driver, lines: &[String]) -> Vec<String> {
 }
 
 impl Ctx {
+    /// Model disagreements (and the known float finding) are recorded a handful per class and
+    /// counted beyond that, so that they can never use up the report's failure slots before the
+    /// ORACLE has judged the remaining cases (AGENT_GUIDE "Search on break").
+    fn fail_capped(&mut self, f: Failure, cap: u64) {
+        let key = format!("failures:{}:{}", f.kind, f.class);
+        self.rep.count(&key);
+        if self.rep.histogram[&key] <= cap {
+            self.rep.fail(f);
+        }
+    }
+
     fn push(&mut self, c: Case) {
         self.pending_bytes += c.text.len() * 5;
         self.pending.push(c);
@@ -835,13 +975,13 @@ impl Ctx {
                 real.clone()
             };
             if model != expect_model {
-                self.rep.fail(Failure {
+                self.fail_capped(Failure {
                     kind: "impl-vs-model".into(),
                     class: "unclassified".into(),
                     input: input.clone(),
                     expected: model.clone(),
                     observed: real.clone(),
-                });
+                }, 8);
             }
             // the twin grammar of libs/scim_proto (names are not interned there)
             {
@@ -851,17 +991,17 @@ impl Ctx {
                 let (twin, twin_rt) = twin_parse(&c.text, c.complex);
                 let expect_tw = if has_nonscalar(&twin) { "reject".to_string() } else { twin.clone() };
                 if model_tw != expect_tw {
-                    if model_tw == "reject" && twin != "reject" && c.text.contains('[') && st == "depth" {
+                    if model_tw == "reject" && twin != "reject" && c.text.contains('[') && (st == "depth" || st == "replay") {
                         // documented difference: `attr[` restarts the depth budget in the twin
                         self.rep.count("twin:complex-depth-restart-accepts-deeper");
                     } else {
-                        self.rep.fail(Failure {
+                        self.fail_capped(Failure {
                             kind: "impl-vs-model".into(),
                             class: "twin-scim_proto-filter".into(),
                             input: input.clone(),
                             expected: model_tw,
                             observed: twin.clone(),
-                        });
+                        }, 8);
                     }
                 }
                 // the twin's own round trip, where the property's preconditions hold by construction
@@ -885,26 +1025,57 @@ impl Ctx {
                     b.split(' ').filter(|x| !x.is_empty()).map(|x| char::from_u32(x.parse().unwrap()).unwrap()).collect()
                 });
                 if mtext.as_deref() != Some(c.text.as_str()) {
-                    self.rep.fail(Failure {
+                    self.fail_capped(Failure {
                         kind: "impl-vs-model".into(),
                         class: "printer".into(),
                         input: json!({"stream": st, "complex": c.complex, "tree": p, "text": c.text, "printed_from": p}),
                         expected: format!("{mtext:?}"),
                         observed: c.text.clone(),
-                    });
+                    }, 8);
+                }
+            }
+            // ORACLE depth (statement: "rejects nesting deeper than the documented limit"), on every
+            // text of every stream, from the implementation's answer and the text alone
+            if real != "reject" {
+                let nesting = text_nesting(&c.text);
+                self.rep.count(&format!("accepted-nesting:{}", match nesting {
+                    0..=3 => "0-3",
+                    4..=31 => "4-31",
+                    32..=119 => "32-119",
+                    120..=126 => "120-126",
+                    127 => "127",
+                    128 => "128",
+                    _ => "over-documented-limit",
+                }));
+                let judged_below = matches!(&c.oracle, Some((w, _)) if w == "REJECT");
+                if nesting > DOCUMENTED_LIMIT && !judged_below {
+                    self.fail_capped(Failure {
+                        kind: "impl-vs-oracle".into(),
+                        class: "oracle-depth-reject".into(),
+                        input: json!({"stream": st, "complex": c.complex, "text": c.text, "printed_from": c.printed_from,
+                                      "oracle": "REJECT", "oracle_name": "depth-reject"}),
+                        expected: format!("REJECT (text nests {nesting} deep, documented limit {DOCUMENTED_LIMIT})"),
+                        observed: real.clone(),
+                    }, 6);
                 }
             }
             if let Some((want, name)) = &c.oracle {
                 self.rep.count(&format!("oracle:{name}"));
                 let ok = if want == "REJECT" { real == "reject" } else { real == *want };
                 if !ok {
-                    self.rep.fail(Failure {
+                    let expected = if *name == "depth-reject" {
+                        format!("REJECT (text nests {} deep, documented limit {DOCUMENTED_LIMIT})", text_nesting(&c.text))
+                    } else {
+                        want.clone()
+                    };
+                    // every oracle failure is counted; 12 witnesses per oracle are kept
+                    self.fail_capped(Failure {
                         kind: "impl-vs-oracle".into(),
                         class: format!("oracle-{name}"),
                         input,
-                        expected: want.clone(),
+                        expected,
                         observed: real.clone(),
-                    });
+                    }, 12);
                 }
             }
             let nt = c.nontrivial || (st == "bad" && real == "reject");
@@ -995,6 +1166,7 @@ fn main() {
                     "precedence" => "precedence",
                     "chain" => "chain",
                     "depth-reject" => "depth-reject",
+                    "depth-within-limit" => "depth-within-limit",
                     _ => "replayed",
                 };
                 Some((o.to_string(), n))
@@ -1136,6 +1308,101 @@ fn main() {
         let text = format!("{}a pr{}", "a pr and (".repeat(nest), ")".repeat(nest));
         ctx.push(Case { stream: "depth", complex: false, text, printed_from: None, oracle: oracle(must_reject), nontrivial: true });
     }
+    // --- depth: towers split across complex-attribute brackets (deterministic) ---
+    // n nesting steps outside, the bracket `attr[` (one level itself), m steps inside: the text nests
+    // n + 1 + m deep although neither side alone reaches the limit. For the documented limit and,
+    // if the source constant has moved, for that value too.
+    let mut limits = vec![DOCUMENTED_LIMIT];
+    match source_limit() {
+        Some(l) if l != DOCUMENTED_LIMIT && (8..=1024).contains(&l) => {
+            limits.push(l);
+            ctx.rep.note(format!("depth: SCIM_FILTER_MAX_DEPTH in the source is {l}, documented {DOCUMENTED_LIMIT}: split towers generated around both"));
+        }
+        Some(l) if l != DOCUMENTED_LIMIT => ctx.rep.note(format!("depth: SCIM_FILTER_MAX_DEPTH in the source is {l} (no extra towers generated for it)")),
+        Some(_) => {}
+        None => ctx.rep.count("depth:source-limit-unreadable"),
+    }
+    for l in limits {
+        let h = l / 2;
+        let mut pairs: Vec<(usize, usize)> = vec![
+            // deeper than the limit in total, each side below it
+            (l - 1, 1), (h, h + 1), (l - 1, l - 1), (1, l), (l - 2, 2), (0, l), (h, h), (l - l / 4 + 4, l - l / 4 + 4), (h + 1, h - 1), (1, l - 1),
+            // exactly at the limit (the statement leaves it open; observed only)
+            (l - 2, 1), (h, h - 1), (0, l - 1), (l - 1, 0),
+            // the in-limit neighbours: must parse
+            (l - 3, 1), (h, h - 2), (0, l - 2), (1, l - 3), (l - 2, 0), (h - 1, h - 2), (2, 2),
+        ];
+        pairs.sort();
+        pairs.dedup();
+        for (n, m) in pairs.iter().copied() {
+            for on in NESTS {
+                for inn in NESTS {
+                    let (text, tree) = split_tower(&vec![on; n], &[("mail", vec![inn; m])], true);
+                    ctx.rep.count(&format!("depth-split:{}", match (n + 1 + m).cmp(&DOCUMENTED_LIMIT) {
+                        std::cmp::Ordering::Less => "within", std::cmp::Ordering::Equal => "at-limit", _ => "over" }));
+                    ctx.push(depth_case(text, &tree, n + 1 + m));
+                }
+            }
+            // every step a different operator (outside and inside)
+            let mixed = |k: usize, off: usize| -> Vec<Nest> { (0..k).map(|i| NESTS[(i + off) % 4]).collect() };
+            for off in 0..2 {
+                let (text, tree) = split_tower(&mixed(n, off), &[("mail", mixed(m, off + 1))], true);
+                ctx.push(depth_case(text, &tree, n + 1 + m));
+            }
+            // two sibling brackets under the same n steps: one shallow, one carrying the m steps
+            if m >= 1 {
+                for (k, on) in NESTS.iter().enumerate() {
+                    let inn = NESTS[(k + 1) % 4];
+                    for deep_first in [false, true] {
+                        let deep = ("mail", vec![inn; m]);
+                        let shallow = ("emails", vec![NESTS[k]; 1]);
+                        let br = if deep_first { [deep, shallow] } else { [shallow, deep] };
+                        let (text, tree) = split_tower(&vec![*on; n], &br, k % 2 == 0);
+                        ctx.rep.count("depth-split:two-brackets");
+                        ctx.push(depth_case(text, &tree, n + 1 + m));
+                    }
+                }
+                // both brackets deep: each within the limit on its own side, over it with the outside
+                let br = [("mail", vec![Nest::Paren; m]), ("emails", vec![Nest::Not; m])];
+                let (text, tree) = split_tower(&vec![Nest::Paren; n], &br, false);
+                ctx.rep.count("depth-split:two-brackets");
+                ctx.push(depth_case(text, &tree, n + 1 + m));
+            }
+        }
+    }
+    // --- depth, search mode only (`--budget` > 1): random towers around the limit ---
+    if args.budget > 1 {
+        let l = DOCUMENTED_LIMIT;
+        for i in 0..400 * args.budget {
+            let mut r = Rng::for_case(args.seed ^ 0xDE97, i);
+            // total nesting: mostly within +-3 of the limit, else anywhere up to twice the limit
+            let (n, m) = match r.below(6) {
+                0..=2 => {
+                    let total = (l - 3 + r.below(8) as usize).max(2);
+                    let n = r.below(total.min(l + 1) as u64) as usize;
+                    (n, total - 1 - n)
+                }
+                3 => (r.range(h_lo(l), l as u64 - 1) as usize, r.range(h_lo(l), l as u64 - 1) as usize),
+                4 => (r.below(l as u64) as usize, r.below(l as u64) as usize),
+                _ => (r.below(2 * l as u64) as usize, r.below(2 * l as u64) as usize),
+            };
+            let ops = |r: &mut Rng, k: usize| -> Vec<Nest> {
+                if r.chance(1, 2) { vec![*r.pick(&NESTS); k] } else { (0..k).map(|_| *r.pick(&NESTS)).collect() }
+            };
+            let outer = ops(&mut r, n);
+            let deep = (*r.pick(&["mail", "emails", "x", "MAIL"]), ops(&mut r, m));
+            let (text, tree) = if r.chance(1, 4) {
+                let m2 = r.below(m as u64 + 1) as usize;
+                let other = (*r.pick(&["mail", "addresses"]), ops(&mut r, m2));
+                let br = if r.chance(1, 2) { [deep, other] } else { [other, deep] };
+                split_tower(&outer, &br, r.chance(1, 2))
+            } else {
+                split_tower(&outer, &[deep], true)
+            };
+            ctx.rep.count("depth-split:random-search");
+            ctx.push(depth_case(text, &tree, n + 1 + m));
+        }
+    }
     // printed deep trees: `Not` towers; the printed form nests 2 per Not plus 1; round trip while within the limit
     for k in 55..=70usize {
         let t = wrap_not_ft(FT::Pres("name".into(), None), k);
@@ -1233,13 +1500,13 @@ fn main() {
                     first = Some(text.clone());
                 }
                 if listed {
-                    ctx.rep.fail(Failure {
+                    ctx.fail_capped(Failure {
                         kind: "impl-vs-oracle".into(),
                         class: FLOAT_CLASS.into(),
                         input: json!({"stream": "hardfloat", "complex": false, "text": text}),
                         expected: format!("{f:?}"),
                         observed: format!("{:?}", other.map_err(|e| e.to_string())),
-                    });
+                    }, 5);
                 }
             }
         }
